@@ -4,8 +4,8 @@ from ..core import f2b, b2f, run_harness, run_driver
 from ..cmp import cmp_bits_list
 from .. import samples as S, sample_checks as SC
 
-MODULE = "Momtrop.Props.C13BM"
-THEOREMS = ["Momtrop.C13.boxMuller_def", "Momtrop.C13.gaussianAt_def", "Momtrop.C13.qVectors_component", "Momtrop.C13.qReads_def", "Momtrop.C13.pair_in_range", "Momtrop.C13.box_muller_radius", "Momtrop.C13.box_muller_polar", "Momtrop.C13.boxMuller_law", "Momtrop.C13.boxMuller_law_model"]
+MODULE = "Momtrop.Props.C13Joint"
+THEOREMS = ["Momtrop.C13.boxMuller_def", "Momtrop.C13.gaussianAt_def", "Momtrop.C13.qVectors_component", "Momtrop.C13.qReads_def", "Momtrop.C13.pair_in_range", "Momtrop.C13.box_muller_radius", "Momtrop.C13.box_muller_polar", "Momtrop.C13.boxMuller_law", "Momtrop.C13.boxMuller_law_model", "Momtrop.C13.map_bm", "Momtrop.C13.gaussPair_eq_prod", "Momtrop.C13.joint_law", "Momtrop.C13.map_sel", "Momtrop.C13.components_iid", "Momtrop.C13.gaussianAt_of_pairs", "Momtrop.C13.drop_last_sine"]
 RULE = ("(i) sample_q_vectors through the hook for every D=1..6 x L=1..5 with random tails, a in {2^-1074, 2^-1000, 1e-300, 1e-30, 1e-16, "
         "2^-53, 1-2^-53}; (ii) Metadata.q_vectors of real samples (massive banana graphs L=1..4, D=1..6) against the definition "
         "evaluated with mpmath. Non-trivial: L>=2 (pairing across loop vectors), D*L odd and even both counted")
@@ -52,7 +52,7 @@ def run(ctx):
                         tail[k] = rng.choice(SPECIAL_A)
                     tail[k] = min(max(tail[k], 5e-324), 1 - 2.0 ** -53)
                     if rng.random() < 0.3:       # exactly representable angles (quarter and eighth turns, zero)
-                        tail[k + 1] = rng.choice([0.0, 0.25, 0.5, 0.75, 0.125, 0.375, 0.625, 0.875])
+                        tail[k + 1] = rng.choice([0.0, 0.25, 0.5, 0.75, 0.125, 0.375, 0.625, 0.875, 1.0])   # (only the radius coordinate is restricted to (0,1))
                 extra = [rng.random() for _ in range(rng.randint(0, 3))]
                 reqs.append({"op": "qvec", "D": D, "L": L, "x": [f2b(t) for t in tail + extra]})
                 infos.append((D, L, tail))
@@ -82,6 +82,8 @@ def run(ctx):
         n, D, L = len(c["edges"]), c["D"], r["L"]
         ctx.case([s["req"]["x"][2 * n - 1:], D, L], nontrivial=L >= 2)
         ctx.count("sample.DL_odd" if (D * L) % 2 else "sample.DL_even")
+        if a.get("status") == "panic":
+            ctx.violation(f"sample panicked ({s['kind']} point): {str(a.get('msg'))[:120]}", S.small_req(s), observed=a); continue
         if a.get("status") != "ok":
             ctx.count(f"sample.{a.get('status')}"); continue
         check_vectors(ctx, S.small_req(s), D, L, s["xs"][2 * n - 1:], a["meta"]["q"], "Metadata.q_vectors")
